@@ -31,6 +31,10 @@ d = common.scratch("c02-")
 ALL_MAXLEN = 5 if QUICK else 7
 NS = {"all": 16, "wf": 4 if QUICK else 16, "mut": 2 if QUICK else 16, "len": 1}
 DEEP = not QUICK
+# read schedules: EVERY split for streams of at most ALLSPLITS bytes, otherwise one read / one byte / two bytes / cuts inside and
+# after every CRLF + RANDSPLITS seeded splits. Thorough: the 2.1 million strings of length 7 get 17 schedules each instead of 64.
+ALLSPLITS = {"all": 10 if QUICK else 6, "wf": 10, "mut": 10, "len": 10}
+RANDSPLITS = {"all": 4 if QUICK else 12, "wf": 4, "mut": 4, "len": 4}
 TCP_SAMPLE = {"all": 250, "wf": 150, "mut": 200} if QUICK else {"all": 2000, "wf": 1000, "mut": 1500}
 B2_PIPELINES = 60 if QUICK else 2000
 MAX_DEATHS_PER_SLICE = 10 if QUICK else 30
@@ -104,7 +108,8 @@ def run_slice(job):
     t0 = time.time()
     while True:
         open(progress, "wb").write(struct.pack("<4Q", index, offset, 0, 0))
-        p = subprocess.run([tool, "-in", vecfile, "-offset", str(offset), "-index", str(index), "-progress", progress, "-seed", str(SEED)],
+        p = subprocess.run([tool, "-in", vecfile, "-offset", str(offset), "-index", str(index), "-progress", progress, "-seed", str(SEED),
+                            "-allsplits", str(ALLSPLITS[mode]), "-randsplits", str(RANDSPLITS[mode])],
                            stdout=subprocess.PIPE, stderr=subprocess.PIPE, preexec_fn=limit, timeout=3000, env=CHILD_ENV)
         summ = None
         for line in p.stdout.decode("utf-8", "replace").splitlines():
@@ -169,6 +174,47 @@ for s in slices:
     for a, b in s["by_why"].items():
         by_why[a] = by_why.get(a, 0) + b
 truncated = [(s["mode"], s["slice"]) for s in slices if s["truncated"]]
+
+
+# ---- vacuity guards (DESIGN 4): the comparator must reject corrupted vectors, and every branch label of the
+# reference decoder must have been exercised
+ALL_LABELS = {"eof.eof", "incomplete.line", "incomplete.elem_line", "incomplete.array_elems", "incomplete.array_huge_len",
+              "incomplete.bulk_body", "incomplete.bulk_huge_len",
+              "malformed.bare_lf", "malformed.bare_lf_in_array", "malformed.array_len_not_int", "malformed.array_len_negative",
+              "malformed.nested_array_len", "malformed.bulk_len_not_int", "malformed.bulk_len_negative", "malformed.bulk_terminator",
+              "unspec.len_spelling", "unspec.null_array", "unspec.empty_array", "unspec.nested_array", "unspec.nonbulk_in_array",
+              "unspec.nil_in_array", "unspec.top_level_bulk", "unspec.top_level_nil", "unspec.empty_line", "unspec.simple_string",
+              "unspec.error_value", "unspec.integer_value", "unspec.inline_text"}
+failing_already = any(s["fails"] or s["deaths"] for s in slices)
+if not truncated and not failing_already:
+    missing = ALL_LABELS - set(by_why)
+    if missing or set(by_why) - ALL_LABELS:
+        common.die_infra("branch labels of RespParser.tla not covered by the vectors (or unknown): %s / %s" % (sorted(missing), sorted(set(by_why) - ALL_LABELS)))
+
+
+def corrupted_vectors_rejected():
+    ea = [42, 49, 13, 10, 36, 49, 13, 10, 97, 13, 10]      # *1 CRLF $1 CRLF a CRLF
+    vecs = [{"k": "selfcheck", "s": ea, "c": [[[98]]], "t": "eof", "w": "eof"},            # expected argument altered
+            {"k": "selfcheck", "s": ea + ea, "c": [[[97]]], "t": "eof", "w": "eof"},       # expected command deleted
+            {"k": "selfcheck", "s": ea, "c": [[[97]]], "t": "malformed", "w": "eof"},      # expected outcome corrupted
+            {"k": "selfcheck", "s": ea, "c": [[[97]]], "t": "eof", "w": "eof"}]            # control
+    path = os.path.join(d, "corrupted.txt")
+    with open(path, "w") as f:
+        for x in vecs:
+            f.write(json.dumps("VEC " + json.dumps(x)) + "\n")
+    p = subprocess.run([tool, "-in", path, "-maxreport", "100"], stdout=subprocess.PIPE, stderr=subprocess.PIPE, preexec_fn=limit, timeout=120, env=CHILD_ENV)
+    got = sorted((json.loads(l[5:])["index"], json.loads(l[5:])["kind"], json.loads(l[5:])["detail"].split(" ")[0])
+                 for l in p.stdout.decode("utf-8", "replace").splitlines() if l.startswith("FAIL "))
+    want = [(1, "wrong-delivery", "altered-command"), (2, "wrong-delivery", "extra-command"), (3, "no-error", "malformed")]
+    return got == want, got
+
+
+ok_guard, got_guard = corrupted_vectors_rejected()
+if not ok_guard:
+    if failing_already:
+        print("NOTE: comparator self-check skipped (the tree under test already fails): %s" % (got_guard,), flush=True)
+    else:
+        common.die_infra("respcheck does not reject corrupted vectors as expected: %s" % (got_guard,))
 
 
 def text(stream):
@@ -548,7 +594,7 @@ cov = {"states": mc.distinct, "transitions": mc.generated, "traces_validated_aga
        "model_checks": {"MC_Resp.cfg": {"distinct": mc.distinct, "generated": mc.generated, "depth": mc.depth, "wall_s": round(mc.wall, 1),
                                         "checked": ["ChunkingIndependence", "OutIsPrefix", "NothingAfterStop"]},
                         "MC_RespExact.cfg": {"wall_s": round(mcx.wall, 1), "checked": ["Exactness (ASSUME)", "prefix monotonicity (ASSUME)"]}},
-       "vectors": tot["vectors"], "vectors_by_class": by_class, "vectors_by_term": by_term, "branch_labels_covered": len(by_why), "vectors_by_branch": by_why,
+       "vectors": tot["vectors"], "vectors_by_class": by_class, "vectors_by_term": by_term, "branches_covered": len(set(by_why) & ALL_LABELS), "branches_total": len(ALL_LABELS), "corrupted_vectors_rejected": ok_guard, "vectors_by_branch": by_why,
        "chunkings_executed": tot["runs"], "vectors_run_under_every_split": tot["exhaustive"], "all_strings_max_len": ALL_MAXLEN,
        "crashers": tot["deaths"], "crasher_signatures": sorted("%s | %s" % k for k in crashers), "hangs": tot["hangs"], "watchdog_expiries_not_repeated_on_retry": tot["stalls"],
        "slices_cut_short": len(truncated), "in_process_deaths_not_reproduced_over_tcp": notes,
@@ -560,6 +606,7 @@ v.finish(tier, "model_checking", cov, [
     "well-formed non-command values (inline text, +OK, null/empty array, top-level bulk, nested / non-bulk array elements, odd length spellings) are 'unspec': "
     "only the commands before them, no crash and no hang are required (DESIGN 2.4)",
     "a malformed item must end the deliveries with an error (in process) / an error reply or a close (TCP); error texts are not compared",
-    "exhaustive over all strings of the 8-symbol alphabet up to length %d and every split of streams <= 10 bytes; longer streams under 5 adversarial + 4 seeded splits" % ALL_MAXLEN,
+    "exhaustive over all strings of the 8-symbol alphabet up to length %d; every split of streams <= 10 bytes (quick) / of the enumerated strings up to 6 bytes and of "
+    "wf/mut/len streams <= 10 bytes (thorough; the strings of length 7 run under 17 schedules); longer streams under 5 adversarial + 4 seeded splits" % ALL_MAXLEN,
     "process deaths of the in-process driver are verdicts only when reproduced on the real server binary over TCP",
     "B2 replies are matched against a Python dictionary model (PING echo, SET/GET/STRLEN on fresh keys), not by TLC"])
